@@ -141,9 +141,44 @@ func (h *H) Gen(rng *rand.Rand, tier, prop string) core.Cfg {
 		c.Sim.Faults["notify.drop"] = 0.3
 	}
 	nk := core.Pick(rng, 0, 1, 1, 1, 2, 3)
+	if nk == 0 && core.Chance(rng, 0.6) {
+		// truncation while file.d is running (never combined with kills: after a restart a truncated
+		// file that has grown past the saved offset again cannot be told from an appended one)
+		nt := core.Between(rng, 1, 2)
+		for t := 0; t < nt; t++ {
+			at := rng.IntN(len(c.Ops) + 1)
+			f := rng.IntN(c.Files)
+			op := WOp{Kind: "truncate", File: f, Pause: core.DurBetween(rng, time.Millisecond, time.Second)}
+			c.Ops = append(c.Ops[:at], append([]WOp{op}, c.Ops[at:]...)...)
+		}
+		// a partial line must not straddle a truncation
+		open := map[int]bool{}
+		var ops []WOp
+		for _, op := range c.Ops {
+			switch op.Kind {
+			case "partial":
+				open[op.File] = true
+			case "complete":
+				if !open[op.File] {
+					continue
+				}
+				open[op.File] = false
+			case "truncate":
+				if open[op.File] {
+					ops = append(ops, WOp{Kind: "complete", File: op.File})
+					open[op.File] = false
+				}
+			}
+			ops = append(ops, op)
+		}
+		c.Ops = ops
+	}
 	var total time.Duration
 	for _, op := range c.Ops {
 		total += op.Pause
+		if op.Kind == "truncate" {
+			total += 3*c.MaintIvl + 2*time.Second
+		}
 	}
 	for k := 0; k < nk; k++ {
 		c.Kills = append(c.Kills, core.DurBetween(rng, time.Millisecond, total+2*time.Second))
@@ -273,6 +308,8 @@ type run struct {
 	diedMsgs []string
 	acked map[int]bool
 	unackedAtKill int
+	truncations int
+	truncMultiStream bool
 	plugins []pipeline.AnyPlugin
 	pendingSend map[sendKey][]int
 	offsetsAtKill []string
@@ -334,6 +371,37 @@ func (r *run) writer() {
 			l.endOff = r.sizes[l.inode]
 			l.complete = true
 			l.writtenAt = simrt.SimNow()
+		case "truncate":
+			if r.pend[op.File] != nil {
+				continue
+			}
+			ino := r.curIno[op.File]
+			if r.sizes[ino] == 0 {
+				continue
+			}
+			r.fs.TruncateDirect(p)
+			r.sizes[ino] = 0
+			r.truncations++
+			inflight := map[string]bool{}
+			streamsOfFile := map[string]bool{}
+			for _, l := range r.order {
+				if l.inode != ino {
+					continue
+				}
+				streamsOfFile[l.stream] = true
+				if l.delivered == 0 {
+					l.truncatedAway = true // written before the truncation: not promised any more
+					inflight[l.stream] = true
+				}
+			}
+			if len(inflight) >= 1 && len(streamsOfFile) >= 2 {
+				// known defect: the "ignore commits of events read before the truncation" mark is one
+				// sequence number per file, but sequence numbers are per stream
+				r.truncMultiStream = true
+			}
+			// the application keeps quiet long enough for file.d to notice (the file is shorter
+			// than what was read); what it writes afterwards must all be delivered
+			simrt.Sleep(3*r.cfg.MaintIvl + 2*time.Second)
 		case "rotate":
 			if r.pend[op.File] != nil {
 				continue // applications finish the line before reopening their log
@@ -570,14 +638,15 @@ func (h *H) Run(cc core.Cfg, sim *simrt.Sim) *core.Outcome {
 	} else if !verdict {
 		o.Inconclusive = "ended by " + reason
 	}
-	o.NonTrivial["C03"] = r.nontrivialKill
+	o.NonTrivial["C03"] = r.nontrivialKill || r.truncations > 0
+	o.Probes["truncations"] += r.truncations
 	o.Summary = map[string]any{"lines": len(r.order), "kills": r.killsDone, "incarnations": r.incarnation, "sends": r.sends, "files": cfg.Files, "power": cfg.Power}
 	return o
 }
 
 func (r *run) allDelivered() bool {
 	for _, l := range r.order {
-		if l.complete && l.delivered == 0 {
+		if l.complete && l.delivered == 0 && !l.truncatedAway {
 			return false
 		}
 	}
@@ -595,7 +664,7 @@ func (r *run) evaluate() {
 	}
 	var missing []*lineInfo
 	for _, l := range r.order {
-		if l.complete && l.delivered == 0 {
+		if l.complete && l.delivered == 0 && !l.truncatedAway {
 			missing = append(missing, l)
 		}
 	}
@@ -615,6 +684,12 @@ func (r *run) evaluate() {
 	}
 	if r.killsDone == 0 {
 		sig += "/no-kill"
+	}
+	if r.truncations > 0 {
+		sig += "/after-truncation"
+		if r.truncMultiStream {
+			sig += "/multi-stream-file-with-uncommitted-lines-at-the-truncation"
+		}
 	}
 	r.o.Violate("C03", sig, "%d complete lines were never delivered in any incarnation; first: id %d stream %s file inode %d end offset %d written at %v (kills at %v, now %v); offsets files at kills: %q", len(missing), l.id, l.stream, l.inode, l.endOff, l.writtenAt, r.cfg.Kills, simrt.SimNow(), r.offsetsAtKill)
 }
